@@ -264,11 +264,11 @@ func ZZ_C10_repair() {
 	beh := make([]int, npeers)
 	peers := make([]net.Peer, npeers)
 	for i := range peers {
-		nb := 5
+		nb := 6
 		if i == 1 {
-			nb = zz.Param("peer1_behaviours", 5)
+			nb = zz.Param("peer1_behaviours", 6)
 		}
-		beh[i] = zz.Choose(fmt.Sprintf("peer%d.behaviour", i), nb) // 0 honest, 1 unreachable, 2 forged beacon for the round, 3 round-0 packet first, 4 other round with a bad signature first
+		beh[i] = zz.Choose(fmt.Sprintf("peer%d.behaviour", i), nb) // 0 honest, 1 unreachable, 2 forged beacon for the round, 3 round-0 packet first, 4 other round with a bad signature first, 5 genuine beacons but WITHOUT the first round asked for (a peer with the same hole)
 		peers[i] = &zzPeer{fmt.Sprintf("peer%d.example:1", i)}
 	}
 	client.SyncFn = func(_ context.Context, p net.Peer, in *proto.SyncRequest) (chan *proto.BeaconPacket, error) {
@@ -292,7 +292,7 @@ func ZZ_C10_repair() {
 			ch <- &proto.BeaconPacket{Round: uint64(other), PreviousSignature: good[other-1].PreviousSig, Signature: zz.Bytes(fmt.Sprintf("peer%d.forged_other", me), len(good[0].Signature)), Metadata: md}
 		}
 		for _, b := range good {
-			if b.Round >= r {
+			if b.Round >= r && !(beh[me] == 5 && b.Round == r) {
 				ch <- &proto.BeaconPacket{Round: b.Round, Signature: b.Signature, PreviousSignature: b.PreviousSig, Metadata: md}
 			}
 		}
